@@ -1,0 +1,23 @@
+//go:build verif
+
+package xmp
+
+import (
+	"fmt"
+
+	"github.com/evanoberholster/imagemeta/xmp/xmpns"
+)
+
+// Verification hook (build tag verif).
+
+// VerifApply hands one (kind, parent property, property, value) tuple to the per-namespace value parsers,
+// exactly as the streaming reader does for every attribute and element it recognises.
+// kind: 1 = attribute, 2 = element.
+func VerifApply(x *XMP, kind uint8, parent, self [2]uint8, val []byte) (err error) {
+	defer func() {
+		if r := recover(); r != nil {
+			err = fmt.Errorf("panic: %v", r)
+		}
+	}()
+	return x.parser(property{val: val, parent: xmpns.Property(parent), self: xmpns.Property(self), pt: pType(kind)})
+}
